@@ -67,7 +67,13 @@ def runHistory (pk : PublicKey) (sk : PrivateKey) (nu0 : Int) (time0 : Int) (ste
       | some sacc0 =>
         -- "badnu": an issuer-signed accumulator whose value does not match its events
         let sacc := if badnu then { sacc0 with nu := sacc0.nu * 4 % pk.n } else sacc0
-        let evs := (h.events.drop frm).take (to + 1 - frm)
+        let evs0 := (h.events.drop frm).take (to + 1 - frm)
+        -- "badevents": a genuine signed accumulator with one event value altered
+        let badevents := (getBool st "badevents").toOption.getD false
+        let badk := (getNat st "badk").toOption.getD 0
+        let evs := if badevents ∧ evs0.length > 0 then
+            evs0.mapIdx fun i e => if i = badk % evs0.length then { e with e := e.e + 2 } else e
+          else evs0
         h := { h with updates := (uid, { sacc := sacc, events := evs }) :: h.updates.filter (·.1 ≠ uid) }
         out := out ++ ["update-ok"]
     | "apply" =>
